@@ -162,7 +162,7 @@ def gen_docstring(r):
 def gen_function(r):
     ir = G.gen_ir(r, nparams=r.randint(1, 4), none_ok=False)
     names = list(ir["params"])
-    shape = r.choice(["plain", "posonly", "star", "kwonly", "kwargs", "all"])
+    shape = r.choice(["plain", "posonly", "star", "kwonly", "kwargs", "all", "receiver-posonly"])
     parts, sig = [], []
 
     def one(n):
@@ -180,7 +180,11 @@ def gen_function(r):
         elif defaults_started:
             ir["params"][n]["default"] = 1
         rendered.append(one(n))
-    if shape in ("posonly", "all") and len(names) >= 2:
+    if shape == "receiver-posonly":
+        # a method whose receiver is positional-only: `def m(self, /, a, b)` — the ordinary parameters are all of a, b
+        parts += [r.choice(["self", "cls"]), "/"] + rendered
+        sig += [("arg", n) for n in names]
+    elif shape in ("posonly", "all") and len(names) >= 2:
         parts += [rendered[0], "/"] + rendered[1:]
         sig += [("posonly", names[0])] + [("arg", n) for n in names[1:]]
     else:
